@@ -226,6 +226,7 @@ def main(mod, tier):
         "rule": getattr(mod, "RULE", ""),
         "samples": samples or [{"case": None}],
         "exhaustive": bool(getattr(mod, "EXHAUSTIVE", True)),
+        "exhaustive_scope": getattr(mod, "SCOPE", "every element of the finite space described by `rule` and `bounds` was executed (no sampling, no cap hit)"),
         "cases": len(cases),
         "bounds": mod.bounds(tier) if hasattr(mod, "bounds") else {},
         "distinct_outcomes": len(outcomes),
